@@ -26,6 +26,7 @@ from typing import ClassVar
 
 from numpy import argmax
 from numpy import asarray
+from numpy import float64
 from numpy import full
 from numpy import ndarray
 from numpy import tile
@@ -237,6 +238,10 @@ class FirstOrderFD(BaseGradientApproximator):
         if not isinstance(step, Number) and len(step) == input_dimension:
             # One step per input component: keep the steps of the differentiated ones.
             step = asarray(step)[input_indices]
+
+        if input_values.dtype.kind in "iu":
+            # The perturbations of integer values are not integers.
+            input_values = input_values.astype(float64)
 
         input_perturbations = (
             tile(input_values, n_indices).reshape((n_indices, input_dimension)).T
